@@ -109,6 +109,31 @@ def exec_call(call, tmpdir):
             if op == 'binarize':
                 gram = fam_grammar.call_binarize(mods, gram, fam_grammar.MODES['mk-none-1-2'])
             return {'gram': fam_grammar.dump_gram(gram), 'lex': fam_grammar.dump_lex(lex, treeio.IDENT)}
+        if op in ('gram_cmd_mk1', 'gram_cmd_mk2'):
+            # the grammar COMMAND (argparse + run()) inside this process, with different --markov options
+            import argparse
+            src = os.path.join(tmpdir, 'gc_%d_%d.export' % (sent, os.getpid()))
+            dest = os.path.join(tmpdir, 'gc_out_%d' % os.getpid())
+            with open(src, 'w', encoding='utf-8') as f:
+                f.write(fam_io.render_export(T, sent, False, random.Random(1)))
+            parser = argparse.ArgumentParser()
+            sub = parser.add_subparsers(dest='subparser_name')
+            mods['grammar'].add_parser(sub)
+            argv = ['grammar', src, dest, 'leftright', '--dest-format', 'rcg', '--markov'] + \
+                (['v:2', 'h:1', 'nofanout'] if op.endswith('mk1') else ['h:2'])
+            args = parser.parse_args(argv)
+            try:
+                args.func(args)
+            except SystemExit:
+                pass
+            res = {}
+            for ext in ('rcg', 'lex'):
+                pth = dest + '.' + ext
+                res[ext] = sorted(open(pth, encoding='utf-8').read().split('\n')) if os.path.exists(pth) else ['<missing>']
+                if os.path.exists(pth):
+                    os.unlink(pth)
+            os.unlink(src)
+            return res
         if op == 'boyd_split':
             tf = mods['transform']
             r = tf.raising(tf.boyd_split(tf.negra_mark_heads(root)))
